@@ -14,6 +14,7 @@ use vcore::{Ctx, Failure, Known, Report};
 
 thread_local! {
     static LAST_PANIC: RefCell<Option<String>> = const { RefCell::new(None) };
+    static GUARDED: std::cell::Cell<bool> = const { std::cell::Cell::new(false) };
 }
 
 pub fn install_panic_hook() {
@@ -26,6 +27,9 @@ pub fn install_panic_hook() {
         } else {
             "panic".to_string()
         };
+        if !GUARDED.with(|g| g.get()) {
+            eprintln!("harness panic at {loc}: {msg}");
+        }
         LAST_PANIC.with(|p| *p.borrow_mut() = Some(format!("{loc}|{msg}")));
     }));
 }
@@ -62,7 +66,10 @@ pub enum Caught<T> {
 
 pub fn guarded<T>(f: impl FnOnce() -> T) -> Caught<T> {
     LAST_PANIC.with(|p| *p.borrow_mut() = None);
-    match catch_unwind(AssertUnwindSafe(f)) {
+    let was = GUARDED.with(|g| g.replace(true));
+    let r = catch_unwind(AssertUnwindSafe(f));
+    GUARDED.with(|g| g.set(was));
+    match r {
         Ok(v) => Caught::Ok(v),
         Err(_) => {
             let raw = LAST_PANIC.with(|p| p.borrow_mut().take()).unwrap_or_else(|| "|unknown panic".into());
@@ -111,7 +118,8 @@ pub fn hex(b: &[u8]) -> String {
 /// What the evaluation of one case reports (crosses the fork boundary as JSON).
 #[derive(Clone, Debug, Default, serde::Serialize, serde::Deserialize)]
 pub struct Outcome {
-    pub verdict: Option<(String, String)>,
+    /// every oracle rejection inside the case, at most one per signature
+    pub verdicts: Vec<(String, String)>,
     pub classes: Vec<String>,
     /// number of oracle evaluations inside the case (value x encoding, pairs, ...)
     pub evaluations: u64,
@@ -120,8 +128,9 @@ pub struct Outcome {
 
 impl Outcome {
     pub fn fail(&mut self, sig: impl Into<String>, what: impl Into<String>) {
-        if self.verdict.is_none() {
-            self.verdict = Some((sig.into(), what.into()));
+        let sig = sig.into();
+        if !self.verdicts.iter().any(|(s, _)| *s == sig) {
+            self.verdicts.push((sig, what.into()));
         }
     }
     pub fn class(&mut self, c: impl Into<String>) {
@@ -145,8 +154,13 @@ pub struct Worker<'a, C> {
 }
 
 const WORKER_RECYCLE: u32 = 4000;
-const CASE_CPU_MILLIS: i64 = 500;
-const WORKER_AS_BYTES: u64 = 1 << 30;
+static CASE_CPU_MILLIS: std::sync::atomic::AtomicI64 = std::sync::atomic::AtomicI64::new(60);
+
+/// per-case CPU allowance of the evaluator process (quick tier 60 ms, thorough 400 ms: long lists)
+pub fn set_case_cpu_millis(ms: i64) {
+    CASE_CPU_MILLIS.store(ms, std::sync::atomic::Ordering::Relaxed);
+}
+const WORKER_AS_BYTES: u64 = 384 << 20;
 
 impl<'a, C: serde::Serialize + serde::de::DeserializeOwned> Worker<'a, C> {
     pub fn new(eval: &'a dyn Fn(&C, i32) -> Outcome, on_death: &'a dyn Fn(&C, &ChildDeath) -> Outcome) -> Self {
@@ -183,14 +197,19 @@ impl<'a, C: serde::Serialize + serde::de::DeserializeOwned> Worker<'a, C> {
                         Ok(0) | Err(_) => libc::_exit(0),
                         Ok(_) => {}
                     }
-                    let case: C = match serde_json::from_str(&line) {
+                    // message = "<cpu allowance in ms> <case json>"
+                    let (ms, body) = match line.split_once(' ') {
+                        Some((a, b)) => (a.parse::<i64>().unwrap_or(1000), b),
+                        None => libc::_exit(3),
+                    };
+                    let case: C = match serde_json::from_str(body) {
                         Ok(c) => c,
                         Err(_) => libc::_exit(3),
                     };
-                    // per-case CPU allowance (process CPU time, insensitive to machine load)
+                    // per-case CPU allowance (process CPU time)
                     let tv = libc::itimerval {
                         it_interval: libc::timeval { tv_sec: 0, tv_usec: 0 },
-                        it_value: libc::timeval { tv_sec: CASE_CPU_MILLIS / 1000, tv_usec: (CASE_CPU_MILLIS % 1000) * 1000 },
+                        it_value: libc::timeval { tv_sec: ms / 1000, tv_usec: (ms % 1000) * 1000 },
                     };
                     libc::setitimer(libc::ITIMER_PROF, &tv, std::ptr::null_mut());
                     let o = (self.eval)(&case, up[1]);
@@ -231,16 +250,40 @@ impl<'a, C: serde::Serialize + serde::de::DeserializeOwned> Worker<'a, C> {
     }
 
     pub fn eval(&mut self, case: &C) -> Outcome {
-        use std::io::BufRead;
         if std::env::var("XCDR_INPROCESS").is_ok() {
             return (self.eval)(case, -1);
         }
+        let ms = CASE_CPU_MILLIS.load(std::sync::atomic::Ordering::Relaxed);
+        match self.eval_once(case, ms) {
+            Ok(o) => o,
+            Err(d) if d.exit == "signal 27" => {
+                // CPU allowance exceeded: could be machine load right after a fork (copy-on-write
+                // faults are charged to the worker). Decide with a 40x allowance in a fresh worker so
+                // that the verdict does not depend on timing.
+                match self.eval_once(case, ms * 40) {
+                    Ok(o) => o,
+                    Err(d) => {
+                        self.deaths += 1;
+                        (self.on_death)(case, &d)
+                    }
+                }
+            }
+            Err(d) => {
+                self.deaths += 1;
+                (self.on_death)(case, &d)
+            }
+        }
+    }
+
+    fn eval_once(&mut self, case: &C, ms: i64) -> Result<Outcome, ChildDeath> {
+        use std::io::BufRead;
         if self.chan.is_none() || self.served >= WORKER_RECYCLE {
             self.reap();
             self.spawn();
         }
         self.served += 1;
-        let mut msg = serde_json::to_vec(case).unwrap();
+        let mut msg = format!("{ms} ").into_bytes();
+        msg.extend(serde_json::to_vec(case).unwrap());
         msg.push(b'\n');
         let (wfd, reader, _pid) = self.chan.as_mut().unwrap();
         let mut off = 0;
@@ -263,7 +306,7 @@ impl<'a, C: serde::Serialize + serde::de::DeserializeOwned> Worker<'a, C> {
                     Ok(_) => {
                         if let Some(js) = line.strip_prefix("#DONE ") {
                             if let Ok(o) = serde_json::from_str::<Outcome>(js) {
-                                return o;
+                                return Ok(o);
                             }
                         } else if let Some(m) = line.strip_prefix('@') {
                             marker = m.trim().to_string();
@@ -273,10 +316,9 @@ impl<'a, C: serde::Serialize + serde::de::DeserializeOwned> Worker<'a, C> {
             }
         }
         // the worker died on this case
-        self.deaths += 1;
         let exit = self.reap();
         let refused = if exit == "signal 6" { Some(0) } else { None };
-        (self.on_death)(case, &ChildDeath { marker, refused_alloc: refused, exit })
+        Err(ChildDeath { marker, refused_alloc: refused, exit })
     }
 }
 
@@ -317,6 +359,13 @@ pub fn campaign<S, C>(
     C: serde::Serialize + serde::de::DeserializeOwned,
 {
     use proptest::strategy::ValueTree;
+    let mut cfg = cfg;
+    if let Some(n) = std::env::var("XCDR_CASES").ok().and_then(|x| x.parse().ok()) {
+        cfg.cases = n; // development aid
+    }
+    if let Some(n) = std::env::var("XCDR_SHRINK").ok().and_then(|x| x.parse().ok()) {
+        cfg.max_shrink = n;
+    }
     let worker = RefCell::new(Worker::new(eval, on_death));
     let known = Known::load(&ctx.id);
     let mut seen: BTreeSet<String> = BTreeSet::new();
@@ -330,7 +379,11 @@ pub fn campaign<S, C>(
             trees.push(strategy.new_tree(&mut runner).expect("strategy"));
         }
         let cases: Vec<C> = trees.iter().map(|t| realize(&t.current())).collect();
-        let outs: Vec<Outcome> = cases.iter().map(|c| worker.borrow_mut().eval(c)).collect();
+        let outs: Vec<Outcome> = if std::env::var("XCDR_GENONLY").is_ok() {
+            cases.iter().map(|_| Outcome::default()).collect()
+        } else {
+            cases.iter().map(|c| worker.borrow_mut().eval(c)).collect()
+        };
         for (idx, o) in outs.into_iter().enumerate() {
             let js = serde_json::to_value(&cases[idx]).unwrap();
             let key = vcore::hash_json(&js);
@@ -342,27 +395,25 @@ pub fn campaign<S, C>(
             if report.stats.wants_sample() && (o.nontrivial || report.stats.samples.is_empty()) {
                 report.stats.sample(sample(&cases[idx]));
             }
-            if let Some((sig, what)) = o.verdict {
+            for (sig, what) in o.verdicts {
                 if sig.starts_with("harness:") {
-                    report.failures.push(Failure { signature: sig, what, case: js, shrunk_from: None, shrunk_to: None });
+                    report.failures.push(Failure { signature: sig, what, case: js.clone(), shrunk_from: None, shrunk_to: None });
                 } else if known.matches(&sig) {
                     *report.stats.excluded_known.entry(sig).or_insert(0) += 1;
                 } else if seen.contains(&sig) {
                     report.stats.class(&format!("also-hit:{sig}"));
                 } else {
-                    // minimise this case
+                    // minimise this case with respect to this signature
                     if std::env::var("XCDR_DEBUG").is_ok() {
                         eprintln!("[{}] new signature {sig} at case {}; shrinking", cfg.stream, done as usize + idx);
                     }
                     let from = js.to_string().len() as u64;
                     let tree = &mut trees[idx];
-                    let mut best: (Value, String, String) = (js, sig.clone(), what);
+                    let mut best: (Value, String, String) = (js.clone(), sig.clone(), what);
                     let fails = |c: &C| -> Option<(String, String)> {
                         let o = worker.borrow_mut().eval(c);
-                        match o.verdict {
-                            Some((s, w)) if !s.starts_with("harness:") && !known.matches(&s) && !seen.contains(&s) => Some((s, w)),
-                            _ => None,
-                        }
+                        // minimise with respect to this signature only (no drifting to another root cause)
+                        o.verdicts.into_iter().find(|(s, _)| *s == sig)
                     };
                     let mut iters = 0;
                     if tree.simplify() {
@@ -394,6 +445,9 @@ pub fn campaign<S, C>(
                     seen.insert(best.1.clone());
                     let to = best.0.to_string().len() as u64;
                     report.failures.push(Failure { signature: best.1, what: best.2, case: best.0, shrunk_from: Some(from), shrunk_to: Some(to) });
+                    // the tree has been consumed by shrinking: later verdicts of this case are
+                    // met again by other cases
+                    break;
                 }
             }
         }
@@ -417,12 +471,12 @@ pub fn replay_case<C: serde::Serialize + serde::de::DeserializeOwned>(
 ) {
     let o = Worker::new(eval, on_death).eval(case);
     report.stats.evaluations = 1;
-    match o.verdict {
-        Some((signature, what)) => {
-            println!("replay: FAIL {signature}\n  {what}");
-            report.failures.push(Failure { signature, what, case: serde_json::to_value(case).unwrap(), shrunk_from: None, shrunk_to: None });
-        }
-        None => println!("replay: the case passes (classes: {:?})", o.classes),
+    if o.verdicts.is_empty() {
+        println!("replay: the case passes (classes: {:?})", o.classes);
+    }
+    for (signature, what) in o.verdicts {
+        println!("replay: FAIL {signature}\n  {what}");
+        report.failures.push(Failure { signature, what, case: serde_json::to_value(case).unwrap(), shrunk_from: None, shrunk_to: None });
     }
 }
 
